@@ -409,3 +409,235 @@ Proof.
       rewrite Forall_forall in Hrange. auto.
     + destruct (Hpv4 id) as [_ ->]. unfold vl. rewrite Hnew. reflexivity.
 Qed.
+
+(* ---------- Pop ---------- *)
+Lemma u16_pred (ql : Z) (n : nat) : ql = u16 (Z.of_nat (S n)) -> u16 (ql - 1) = u16 (Z.of_nat n).
+Proof. intros ->. unfold u16. lia. Qed.
+
+Lemma seg_set_val_tail h f t v :
+  seg h (Some f) (f :: t) None -> seg (set_val h f v) (nx (set_val h f v) f) t None.
+Proof.
+  intros (_ & Hf & H). rewrite nx_set_val.
+  eapply seg_ext; [| |exact H]. - rewrite set_val_length. lia. - intros i _. apply nx_set_val.
+Qed.
+
+Lemma absl_set_val_tail h f t v : ~ In f t -> absl (set_val h f v) t = absl h t.
+Proof.
+  intros Hni. apply absl_ext. intros i Hi. rewrite pr_set_val, vl_set_val_other; auto. intros ->. auto.
+Qed.
+
+Theorem pq_pop_refines q l :
+  Rep q l ->
+  match aq_pop (absl (qheap q) l) with
+  | Ok (w, t) => exists q' l', pq_pop q = Ok (w, q') /\ Rep q' l' /\ absl (qheap q') l' = t /\
+                   incl l' l /\ (forall i, In i l' -> vl (qheap q') i = vl (qheap q) i)
+  | Err e => pq_pop q = Err e
+  | _ => False
+  end.
+Proof.
+  intros (Hs & Hnd & Hlen). destruct q as [h qn ql]. cbn [qheap qnext qlen] in *.
+  destruct l as [|f t]; simpl in Hs.
+  - subst. reflexivity.
+  - destruct Hs as (-> & Hf & Hs). cbn [absl map aq_pop].
+    apply NoDup_cons_iff in Hnd as [Hni Hnd].
+    eexists. exists t. unfold pq_pop. cbn [qheap qnext qlen]. split; [reflexivity|].
+    unfold Rep. cbn [qheap qnext qlen]. split; [split; [|split]|split; [|split]].
+    + apply (seg_set_val_tail h f t None). simpl. auto.
+    + exact Hnd.
+    + apply u16_pred. exact Hlen.
+    + apply absl_set_val_tail. exact Hni.
+    + intros i Hi. right. exact Hi.
+    + intros i Hi. apply vl_set_val_other. intros ->. auto.
+Qed.
+
+(* ---------- PopAt / PopAtTimestamp ---------- *)
+Definition mt (h : heap) (k : key) (i : nat) : bool :=
+  match node_match k (get h i) with Some true => true | _ => false end.
+
+Lemma entry_node_match h k i : entry_match k (pr h i, vl h i) = node_match k (get h i).
+Proof. destruct k; reflexivity. Qed.
+
+Lemma node_match_some h k i : vl h i <> None -> node_match k (get h i) <> None.
+Proof. unfold vl. destruct k; simpl; [discriminate|]. destruct (nval (get h i)); congruence. Qed.
+
+Lemma aq_remove_span h k : forall l la lb,
+  (forall i, In i l -> vl h i <> None) -> span (mt h k) l = (la, lb) ->
+  aq_remove (absl h l) k =
+    match lb with [] => Err ErrNotFound | r :: lb' => Ok (vl h r, absl h (la ++ lb')) end.
+Proof.
+  induction l as [|i l IH]; intros la lb Hv H.
+  - inversion H; subst. reflexivity.
+  - cbn [absl map aq_remove]. rewrite entry_node_match. simpl in H. unfold mt at 1 in H.
+    pose proof (node_match_some h k i (Hv i (or_introl eq_refl))) as Hn.
+    destruct (node_match k (get h i)) as [[|]|]; [| |congruence].
+    + inversion H; subst. reflexivity.
+    + destruct (span (mt h k) l) as [a b]. inversion H; subst.
+      fold (absl h l). rewrite (IH a lb) by (auto; intros; apply Hv; right; auto).
+      destruct lb; reflexivity.
+Qed.
+
+Lemma popat_skip h k : forall la fuel a b prev,
+  seg h a la b -> Forall (fun i => node_match k (get h i) = Some false) la ->
+  popat_walk (length la + fuel) h a prev k = popat_walk fuel h b (lastp la prev) k.
+Proof.
+  induction la as [|i la IH]; simpl; intros fuel a b prev H Hf.
+  - subst. reflexivity.
+  - destruct H as (-> & Hi & H). inversion Hf; subst. rewrite H2. fold (nx h i).
+    rewrite (IH fuel _ b (Some i)); auto.
+Qed.
+
+Lemma mt_false h k la : (forall i, In i la -> vl h i <> None) ->
+  Forall (fun i => mt h k i = false) la -> Forall (fun i => node_match k (get h i) = Some false) la.
+Proof.
+  intros Hv Hf. rewrite Forall_forall in *. intros i Hi. specialize (Hf i Hi). unfold mt in Hf.
+  pose proof (node_match_some h k i (Hv i Hi)). destruct (node_match k (get h i)) as [[|]|]; congruence.
+Qed.
+
+Lemma aq_popat_ne h i t k : aq_popat (absl h (i :: t)) k = aq_remove (absl h (i :: t)) k.
+Proof. reflexivity. Qed.
+
+Theorem pq_popat_refines q l k :
+  Rep q l -> Vals q l ->
+  match aq_popat (absl (qheap q) l) k with
+  | Ok (w, t) => exists q' l', pq_popat q k = Ok (w, q') /\ Rep q' l' /\ absl (qheap q') l' = t /\
+                   incl l' l /\ (forall i, In i l' -> vl (qheap q') i = vl (qheap q) i)
+  | Err e => pq_popat q k = Err e
+  | _ => False
+  end.
+Proof.
+  intros HR Hv. pose proof (Rep_fuel q l HR) as Hfuel. destruct HR as (Hs & Hnd & Hlen).
+  destruct q as [h qn ql]. unfold Vals in Hv. cbn [qheap qnext qlen] in *.
+  destruct l as [|f t].
+  { simpl in Hs. subst. reflexivity. }
+  assert (Hs0 := Hs). simpl in Hs. destruct Hs as (-> & Hf & Hs).
+  rewrite aq_popat_ne.
+  destruct (span (mt h k) (f :: t)) as [la lb] eqn:Espan.
+  rewrite (aq_remove_span h k (f :: t) la lb Hv Espan).
+  destruct (span_spec _ _ _ _ Espan) as (Hsplit & Hla & Hlb).
+  apply mt_false in Hla; [|intros i Hi; apply Hv; rewrite Hsplit; apply in_or_app; auto].
+  unfold pq_popat. cbn [qheap qnext qlen].
+  pose proof (node_match_some h k f (Hv f (or_introl eq_refl))) as Hnf.
+  destruct (node_match k (get h f)) as [[|]|] eqn:Ehead; [| |congruence].
+  - (* the head matches *)
+    simpl in Espan. unfold mt at 1 in Espan. rewrite Ehead in Espan. inversion Espan; subst la lb.
+    apply NoDup_cons_iff in Hnd as [Hni Hnd].
+    eexists. exists t. split; [reflexivity|]. unfold Rep. cbn [qheap qnext qlen app].
+    split; [split; [|split]|split; [|split]].
+    + apply (seg_set_val_tail h f t None). exact Hs0.
+    + exact Hnd.
+    + apply u16_pred. exact Hlen.
+    + apply absl_set_val_tail. exact Hni.
+    + intros i Hi. right. exact Hi.
+    + intros i Hi. apply vl_set_val_other. intros ->. auto.
+  - (* walk *)
+    assert (Hlane : la <> []).
+    { intros ->. simpl in Hsplit. subst lb. unfold mt in Hlb. rewrite Ehead in Hlb. discriminate. }
+    rewrite Hsplit in Hs0. apply seg_split in Hs0 as (Hs1 & Hs2).
+    assert (Hlenl : length la + length lb = S (length t)).
+    { rewrite <- app_length, <- Hsplit. reflexivity. }
+    assert (Hfu : S (length h) = length la + S (length h - length la)) by (simpl in Hfuel; lia).
+    rewrite Hfu. clear Hfu.
+    rewrite (popat_skip h k la _ _ _ _ Hs1 Hla). rewrite lastp_last by auto.
+    set (p := last la 0).
+    assert (Hpin : In p la).
+    { unfold p. destruct (exists_last Hlane) as (l' & x & ->). rewrite last_last. apply in_or_app. right. left. auto. }
+    destruct lb as [|r lb].
+    + reflexivity.
+    + simpl hd_opt. cbn [popat_walk]. unfold mt in Hlb.
+      destruct (node_match k (get h r)) as [[|]|]; try discriminate. clear Hlb.
+      rewrite Hsplit in Hnd. apply NoDup_app_inv in Hnd as (Hnd1 & Hnd2 & Hdisj).
+      apply NoDup_cons_iff in Hnd2 as [Hrni Hnd2].
+      assert (Hrange : forall i, In i la \/ In i (r :: lb) -> i < length h).
+      { intros i Hi. apply seg_range in Hs1, Hs2. rewrite Forall_forall in Hs1, Hs2. destruct Hi; auto. }
+      assert (Hpr : p <> r) by (intros E; apply (Hdisj p Hpin); left; auto).
+      assert (Hpl : p < length h) by auto.
+      fold (vl h r).
+      set (h1 := set_val h r None). set (h2 := set_next h1 p (nnext (get h1 r))).
+      set (h3 := match nnext (get h2 p) with Some nx' => set_prev h2 nx' (Some p) | None => h2 end).
+      assert (L3 : length h3 = length h).
+      { unfold h3. destruct (nnext (get h2 p)); [rewrite set_prev_length|];
+          unfold h2, h1; rewrite set_next_length, set_val_length; reflexivity. }
+      assert (Hnx3 : forall j, nx h3 j = if Nat.eqb j p then nx h r else nx h j).
+      { intros j. assert (nx h3 j = nx h2 j) as ->.
+        { unfold h3. destruct (nnext (get h2 p)); [apply nx_set_prev|reflexivity]. }
+        unfold h2. rewrite nx_set_next. fold (nx h1 r). unfold h1. rewrite !nx_set_val, set_val_length.
+        assert (Nat.ltb p (length h) = true) as -> by (apply Nat.ltb_lt; lia).
+        rewrite andb_true_r. reflexivity. }
+      assert (Hvl3 : forall j, j <> r -> vl h3 j = vl h j).
+      { intros j Hj. assert (vl h3 j = vl h2 j) as ->.
+        { unfold h3. destruct (nnext (get h2 p)); [apply vl_set_prev|reflexivity]. }
+        unfold h2. rewrite vl_set_next. unfold h1. apply vl_set_val_other. exact Hj. }
+      assert (Hpr3 : forall j, pr h3 j = pr h j).
+      { intros j. assert (pr h3 j = pr h2 j) as ->.
+        { unfold h3. destruct (nnext (get h2 p)); [apply pr_set_prev|reflexivity]. }
+        unfold h2. rewrite pr_set_next. unfold h1. apply pr_set_val. }
+      destruct Hs2 as (_ & Hr & Hs2).
+      eexists. exists (la ++ lb). split; [reflexivity|]. unfold Rep. cbn [qheap qnext qlen].
+      split; [split; [|split]|split; [|split]].
+      * apply seg_app. exists (nx h r). split.
+        -- eapply seg_redirect with (b := Some r); eauto.
+           ++ lia.
+           ++ intros j Hj Hne. rewrite Hnx3. fold p in Hne. apply Nat.eqb_neq in Hne. rewrite Hne. reflexivity.
+           ++ fold p. rewrite Hnx3, Nat.eqb_refl. reflexivity.
+        -- eapply seg_ext; [| |exact Hs2]; [lia|].
+           intros j Hj. rewrite Hnx3.
+           assert (j <> p) by (intros ->; apply (Hdisj p Hpin); right; auto).
+           apply Nat.eqb_neq in H. rewrite H. reflexivity.
+      * apply NoDup_app_intro; auto. intros x Hx Hin. apply (Hdisj x Hx). right. exact Hin.
+      * rewrite Hlen. simpl length. rewrite app_length. simpl in Hlenl.
+        replace (S (length t)) with (S (length la + length lb)) by lia. unfold u16. lia.
+      * apply absl_ext. intros i Hi. split; [apply Hpr3|]. apply Hvl3.
+        intros ->. apply in_app_or in Hi as [Hi|Hi]; [apply (Hdisj r Hi); left; auto|auto].
+      * intros i Hi. rewrite Hsplit. apply in_or_app. apply in_app_or in Hi as [Hi|Hi]; [left|right; right]; auto.
+      * intros i Hi. apply Hvl3.
+        intros ->. apply in_app_or in Hi as [Hi|Hi]; [apply (Hdisj r Hi); left; auto|auto].
+Qed.
+
+(* ---------- Clear ---------- *)
+Lemma clear_walk_spec : forall l fuel h a,
+  seg h a l None -> length l < fuel ->
+  exists h', clear_walk fuel h a = Ok h' /\ length h' = length h.
+Proof.
+  induction l as [|i l IH]; intros fuel h a H Hf; (destruct fuel as [|fuel]; [simpl in Hf; lia|]); simpl in *.
+  - subst. eauto.
+  - destruct H as (-> & Hi & H). fold (nx h i).
+    destruct (IH fuel (set_prev h i None) (nx h i)) as (h' & E & L).
+    + eapply seg_ext; [| |exact H]. * rewrite set_prev_length. lia. * intros j _. apply nx_set_prev.
+    + lia.
+    + exists h'. rewrite set_prev_length in L. auto.
+Qed.
+
+Theorem pq_clear_refines q l : Rep q l -> exists q', pq_clear q = Ok q' /\ Rep q' [].
+Proof.
+  intros HR. pose proof (Rep_fuel q l HR) as Hfuel. destruct HR as (Hs & Hnd & Hlen).
+  unfold pq_clear, pq_clear_gen.
+  destruct (clear_walk_spec l (S (length (qheap q))) (qheap q) (qnext q) Hs) as (h' & -> & L); [lia|].
+  eexists. split; [reflexivity|]. repeat split; simpl; auto. constructor.
+Qed.
+
+(* ---------- refutations for the code before the fix: commits ---------- *)
+(* F18: pushing a duplicate of the head links the two nodes into a cycle; a
+   Find for an absent number then exhausts any fuel *)
+Definition q55 : pq :=
+  match pq_push_gen false pq_new None 5 with
+  | Ok q1 => match pq_push_gen false q1 None 5 with Ok q2 => q2 | _ => pq_new end
+  | _ => pq_new
+  end.
+
+Lemma unfixed_push_cycle : nx (qheap q55) 0 = Some 1 /\ nx (qheap q55) 1 = Some 0.
+Proof. vm_compute. auto. Qed.
+
+Lemma unfixed_push_find_diverges : forall fuel, find_walk fuel (qheap q55) (qnext q55) 7 = Diverge.
+Proof.
+  assert (H : forall fuel, find_walk fuel (qheap q55) (Some 0) 7 = Diverge /\
+                           find_walk fuel (qheap q55) (Some 1) 7 = Diverge).
+  { induction fuel as [|fuel [IH0 IH1]]; [split; reflexivity|].
+    split; simpl; [exact IH1|exact IH0]. }
+  intros fuel. apply H.
+Qed.
+
+(* F19: the unfixed Clear leaves the list reachable *)
+Lemma unfixed_clear_find :
+  exists q1 q2, pq_push pq_new (Some (mkPkt 0 5 0)) 5 = Ok q1 /\ pq_clear_gen false q1 = Ok q2 /\
+                pq_find q2 5 = Ok (Some (mkPkt 0 5 0)).
+Proof. eexists. eexists. vm_compute. auto. Qed.
